@@ -1,6 +1,6 @@
 """C18: drivers of the real foolscap logging code (FoolscapLogger, IncidentReporter, Subscription, flogfile,
 LogFileObserver, dumper) under the virtual clock; value-spec language for hostile event arguments."""
-import io, json, os, re, shutil, sys
+import io, json, os, re, shutil, sys, weakref
 from twisted.internet import defer
 from twisted.python import failure
 from harness import implenv as E
@@ -240,6 +240,20 @@ class RaisingReporter(incident.IncidentReporter):
         raise RuntimeError("reporter fault")
 
 
+# how many trailing events a reporter had left when it stopped, keyed by (logger, trigger number): recorded by wrapping
+# IncidentReporter.stop_recording (the wrapper only records and calls the original)
+STOPPED_WITH = {}
+_orig_stop_recording = incident.IncidentReporter.stop_recording
+
+
+def _recording_stop(self):
+    STOPPED_WITH[(id(self.logger), (getattr(self, "trigger", None) or {}).get("num"))] = getattr(self, "remaining_events", None)
+    return _orig_stop_recording(self)
+
+
+incident.IncidentReporter.stop_recording = _recording_stop
+
+
 class LoggerRig(object):
     """a FoolscapLogger with logdir/reporter configured as the model's cfg says; records what happened"""
 
@@ -249,7 +263,13 @@ class LoggerRig(object):
         self.L = log.FoolscapLogger()
         self.emitted = {}           # (num, id) -> the event dict as handed to observers
         self.order = []
+        self.at_emission = {}
+        self.n_timer_iters = 0
+        self.batch_idx = 0
+        self.react = None
+        self.reaction_result = []
         self.L.addImmediateObserver(self._saw)
+        self.L.addObserver(self._app_observer)
         self.incdir = os.path.join(self.dir, "incidents")
         if factory is None:
             factory = incident.IncidentReporter if trailing else incident.NonTrailingIncidentReporter
@@ -273,12 +293,62 @@ class LoggerRig(object):
     def _saw(self, ev):
         self.emitted[(ev.get("num"), ev_id(ev))] = ev
         self.order.append(ev)
+        L = self.L
+        ir = L.get_active_incident_reporter()
+        subscribed = any(getattr(o, "__name__", "") == "trailing_event" for o in L._observers)
+        # (never keep a strong reference to a reporter: the logger tracks the active one through a weakref)
+        self.at_emission[id(ev)] = dict(reporter=(weakref.ref(ir) if ir is not None else None), subscribed=subscribed,
+                                        trigger_num=(getattr(ir, "trigger", None) or {}).get("num") if ir is not None else None,
+                                        phase=("none" if ir is None else
+                                               "recording" if getattr(ir, "still_recording", True) else "stopped-but-active"))
+
+    def _app_observer(self, ev):
+        """an application observer (registered before any reporter): reacts to the k-th event of this batch that was
+        emitted while a reporter was subscribed, by making one more call from inside the eventual-send batch"""
+        if not self.at_emission.get(id(ev), {}).get("subscribed"):
+            return
+        k = self.batch_idx
+        self.batch_idx += 1
+        if self.react is not None and self.react[0] == k:
+            op = self.react[1]
+            self.react = None
+            self.reaction_result.append(do_call(self, op))
+
+    def iteration(self, it):
+        """one reactor iteration of the fine-grained model -> list of (ret, exc, reprok) per call (reaction last)"""
+        out = []
+        self.batch_idx = 0
+        self.reaction_result = []
+        if it[0] == "calls":
+            for o in it[1]:
+                out.append(do_call(self, o))
+            self.react = tuple(it[2]) if it[2] is not None else None
+            self.turn()
+            self.react = None
+            out += self.reaction_result
+        else:
+            delay = incident.IncidentReporter.TRAILING_DELAY
+            res_b, res_a = [], []
+            # "before" calls run a little earlier each iteration, so that the timer of a reporter they start fires
+            # BETWEEN the before- and the after-calls of the next timer iteration (as every other reporter's does)
+            self.n_timer_iters += 1
+            if it[1]:
+                E.clock.callLater(delay - 0.001 * self.n_timer_iters, lambda: res_b.extend(do_call(self, o) for o in it[1]))
+            if it[2]:
+                E.clock.callLater(delay, lambda: res_a.extend(do_call(self, o) for o in it[2]))
+            E.clock.advance(delay)
+            self.turn()
+            out = res_b + res_a
+        return out
 
     def turn(self):
         E.turn()
         if not os.path.isdir(self.incdir):
             return
-        now = sorted(f for f in os.listdir(self.incdir) if f.endswith(".flog.bz2"))
+        # several incidents may be published in one turn: keep the order in which they were recorded
+        rec = [os.path.basename(x) for x in self.L.recent_recorded_incidents]
+        now = sorted((f for f in os.listdir(self.incdir) if f.endswith(".flog.bz2")),
+                     key=lambda f: (rec.index(f) if f in rec else len(rec), f))
         for f in now:
             if f not in self.published:
                 self.published.append(f)
@@ -364,7 +434,14 @@ BAD_CALLS = {
 
 
 def call_msg(rig, op):
-    """perform one model op on the real logger -> (returned value or None, exception or None, reprok)"""
+    """perform one model op on the real logger, then a full turn -> (returned value or None, exception or None, reprok)"""
+    out = do_call(rig, op)
+    rig.turn()
+    return out
+
+
+def do_call(rig, op):
+    """the call only (no turn of the eventual queue)"""
     L = rig.L
     kind = op[0]
     reprok = True
@@ -405,7 +482,7 @@ def call_msg(rig, op):
             L.set_generation_threshold(op[2], FACS[op[1]])
             r = None
         elif kind == "timer":
-            rig.timer()
+            rig.timer()        # (turns the queue itself)
             r = None
         elif kind == "fault":
             rig.set_fault(op[1], op[2])
@@ -413,9 +490,7 @@ def call_msg(rig, op):
         else:
             raise ValueError(op)
     except Exception as e:       # the property: this never happens for msg
-        rig.turn()
         return None, e, reprok
-    rig.turn()
     return r, None, reprok
 
 
